@@ -114,7 +114,10 @@ Qed.
 Lemma exn_of_bad_not_attr : forall cls f b, is_attribute_error (exn_of_bad cls f b) = false.
 Proof. intros cls f [|v]; reflexivity. Qed.
 
-Theorem body_dict : forall c kvs, cs_fields c <> [] ->
+Lemma touch_dict : forall c kvs, touch c (VDict kvs) = Ok tt.
+Proof. intros c kvs. unfold touch. destruct (cs_fields c), (cs_forbid_extra c); reflexivity. Qed.
+
+Theorem body_dict : forall c kvs,
   body c (VDict kvs) =
   if cs_forbid_extra c && negb (match extra_keys c kvs with [] => true | _ => false end)
   then Exn (XExtraKeys (extra_keys c kvs) (cs_name c))
@@ -122,20 +125,19 @@ Theorem body_dict : forall c kvs, cs_fields c <> [] ->
        | Some (f, b) => Exn (exn_of_bad (cs_name c) f b)
        | None => Ok (map (step_val kvs) (cs_fields c)) end.
 Proof.
-  intros c kvs Hne. unfold body.
-  destruct (cs_fields c) as [|f0 r] eqn:Ef; [congruence|].
-  unfold extra_check. destruct (cs_forbid_extra c); cbn [andb].
+  intros c kvs. unfold body.
+  unfold extra_check. destruct (cs_forbid_extra c) eqn:Hf; cbn [andb].
   - destruct (extra_keys c kvs) as [|k ks] eqn:Ek; cbn [negb].
-    + rewrite field_loop_dict. apply outer_handler_not_attr.
-      intros e He. destruct (first_bad kvs (f0 :: r)) as [[g b]|]; [|discriminate].
+    + rewrite touch_dict, field_loop_dict. apply outer_handler_not_attr.
+      intros e He. destruct (first_bad kvs (cs_fields c)) as [[g b]|]; [|discriminate].
       inversion He. apply exn_of_bad_not_attr.
     + reflexivity.
-  - rewrite field_loop_dict. apply outer_handler_not_attr.
-    intros e He. destruct (first_bad kvs (f0 :: r)) as [[g b]|]; [|discriminate].
+  - rewrite touch_dict, field_loop_dict. apply outer_handler_not_attr.
+    intros e He. destruct (first_bad kvs (cs_fields c)) as [[g b]|]; [|discriminate].
     inversion He. apply exn_of_bad_not_attr.
 Qed.
 
-Theorem from_dict_dict : forall c kvs, plain c -> cs_fields c <> [] ->
+Theorem from_dict_dict : forall c kvs, plain c ->
   from_dict c (VDict kvs) =
   if cs_forbid_extra c && negb (match extra_keys c kvs with [] => true | _ => false end)
   then Exn (XExtraKeys (extra_keys c kvs) (cs_name c))
@@ -143,29 +145,35 @@ Theorem from_dict_dict : forall c kvs, plain c -> cs_fields c <> [] ->
        | Some (f, b) => Exn (exn_of_bad (cs_name c) f b)
        | None => Ok (good_instance c kvs) end.
 Proof.
-  intros c kvs [Hpre Hpost] Hne. unfold from_dict. rewrite Hpre, Hpost, body_dict by assumption.
+  intros c kvs [Hpre Hpost]. unfold from_dict. rewrite Hpre, Hpost, body_dict.
   destruct (cs_forbid_extra c && _); [reflexivity|].
   destruct (first_bad kvs (cs_fields c)) as [[f b]|]; [reflexivity|].
   unfold good_instance. rewrite fill_all_map. reflexivity.
 Qed.
 
 (* non-mapping argument *)
-Theorem body_nonmapping : forall c d, is_dict d = false -> cs_fields c <> [] ->
-  body c d = Exn XValueError.
+Theorem body_nonmapping : forall c d, is_dict d = false -> body c d = Exn XValueError.
 Proof.
-  intros c d Hd Hne. unfold body. destruct (cs_fields c) as [|f r]; [congruence|].
+  intros c d Hd. unfold body.
   assert (Hget: forall k, py_get d k = Exn XAttributeError) by (intro k; destruct d; cbn in Hd; try discriminate Hd; reflexivity).
-  assert (Hloop: field_loop (cs_name c) d (f :: r) = Exn XAttributeError).
-  { cbn [field_loop]. unfold field_step, read_key. rewrite Hget. reflexivity. }
-  unfold extra_check. destruct (cs_forbid_extra c).
-  - destruct d; cbn in Hd; try discriminate Hd; reflexivity.
-  - rewrite Hloop. cbn [outer_handler]. rewrite Hd. reflexivity.
+  assert (Hin: (match extra_check c d with
+                | Exn e => Exn e
+                | Ok _ => match touch c d with
+                          | Exn e => Exn e
+                          | Ok _ => field_loop (cs_name c) d (cs_fields c) end
+                end) = Exn XAttributeError).
+  { unfold extra_check, touch. destruct (cs_forbid_extra c).
+    - destruct d; cbn in Hd; try discriminate Hd; reflexivity.
+    - destruct (cs_fields c) as [|f r].
+      + rewrite Hd. reflexivity.
+      + cbn [field_loop]. unfold field_step, read_key. rewrite Hget. reflexivity. }
+  rewrite Hin. cbn [outer_handler]. rewrite Hd. reflexivity.
 Qed.
 
-Theorem from_dict_nonmapping : forall c d, plain c -> is_dict d = false -> cs_fields c <> [] ->
+Theorem from_dict_nonmapping : forall c d, plain c -> is_dict d = false ->
   from_dict c d = Exn XValueError.
 Proof.
-  intros c d [Hpre Hpost] Hd Hne. unfold from_dict. rewrite Hpre, body_nonmapping by assumption. reflexivity.
+  intros c d [Hpre Hpost] Hd. unfold from_dict. rewrite Hpre, body_nonmapping by assumption. reflexivity.
 Qed.
 
 (* ------------------------------------------------------------------ *)
@@ -179,18 +187,17 @@ Theorem first_bad_decides : forall c kvs pre f post b,
   from_dict c (VDict kvs) = Exn (exn_of_bad (cs_name c) f b).
 Proof.
   intros c kvs pre f post b Hpl Hfs Hex Hpre Hf.
-  assert (Hne: cs_fields c <> []) by (rewrite Hfs; destruct pre; discriminate).
   rewrite from_dict_dict by assumption.
   replace (cs_forbid_extra c && _) with false.
   - rewrite Hfs, (first_bad_of_split _ _ _ _ _ Hpre Hf). reflexivity.
   - destruct (cs_forbid_extra c); [|reflexivity]. rewrite (Hex eq_refl). reflexivity.
 Qed.
 
-Theorem extra_exact : forall c kvs, plain c -> cs_fields c <> [] ->
+Theorem extra_exact : forall c kvs, plain c ->
   cs_forbid_extra c = true -> extra_keys c kvs <> [] ->
   from_dict c (VDict kvs) = Exn (XExtraKeys (extra_keys c kvs) (cs_name c)).
 Proof.
-  intros c kvs Hpl Hne Hf Hex. rewrite from_dict_dict by assumption. rewrite Hf.
+  intros c kvs Hpl Hf Hex. rewrite from_dict_dict by assumption. rewrite Hf.
   destruct (extra_keys c kvs); [congruence|]. reflexivity.
 Qed.
 
@@ -201,21 +208,21 @@ Proof.
   intros c kvs k. unfold extra_keys. rewrite filter_In. rewrite negb_true_iff. tauto.
 Qed.
 
-Theorem all_good_ok : forall c kvs, plain c -> cs_fields c <> [] ->
+Theorem all_good_ok : forall c kvs, plain c ->
   (cs_forbid_extra c = true -> extra_keys c kvs = []) ->
   Forall (fun g => field_bad kvs g = None) (cs_fields c) ->
   from_dict c (VDict kvs) = Ok (good_instance c kvs).
 Proof.
-  intros c kvs Hpl Hne Hex Hall. rewrite from_dict_dict by assumption.
+  intros c kvs Hpl Hex Hall. rewrite from_dict_dict by assumption.
   replace (cs_forbid_extra c && _) with false.
   - apply first_bad_none in Hall. rewrite Hall. reflexivity.
   - destruct (cs_forbid_extra c); [|reflexivity]. rewrite (Hex eq_refl). reflexivity.
 Qed.
 
 (* outcome set *)
-Theorem outcomes : forall c d, plain c -> cs_fields c <> [] -> documented c d (from_dict c d).
+Theorem outcomes : forall c d, plain c -> documented c d (from_dict c d).
 Proof.
-  intros c d Hpl Hne. destruct (is_dict d) eqn:Hd.
+  intros c d Hpl. destruct (is_dict d) eqn:Hd.
   - destruct d; try discriminate. rename kvs into kvs.
     rewrite from_dict_dict by assumption.
     destruct (cs_forbid_extra c) eqn:Hf; cbn [andb].
@@ -251,10 +258,10 @@ Proof.
 Qed.
 
 (* ValueError exactly for non-mappings *)
-Theorem value_error_iff : forall c d, plain c -> cs_fields c <> [] ->
+Theorem value_error_iff : forall c d, plain c ->
   (from_dict c d = Exn XValueError <-> is_dict d = false).
 Proof.
-  intros c d Hpl Hne. split.
+  intros c d Hpl. split.
   - intro H. destruct (is_dict d) eqn:Hd; [|reflexivity]. destruct d; try discriminate.
     rewrite from_dict_dict in H by assumption.
     destruct (cs_forbid_extra c && _); [discriminate|].
@@ -264,7 +271,7 @@ Qed.
 
 (* no silent None / default: an instance is returned only when no field is bad, and then every
    field whose key is present holds the decoder's result for the input value *)
-Theorem no_silent_default : forall c d r, plain c -> cs_fields c <> [] ->
+Theorem no_silent_default : forall c d r, plain c ->
   from_dict c d = Ok r ->
   exists kvs, d = VDict kvs /\ r = good_instance c kvs /\
     forall f, In f (cs_fields c) ->
@@ -276,7 +283,7 @@ Theorem no_silent_default : forall c d r, plain c -> cs_fields c <> [] ->
            else match fs_dec f v with Ok x => x | Exn _ => VNone end) /\
         (fs_ident f = false -> (fs_nullable f && is_none v) = false -> exists x, fs_dec f v = Ok x).
 Proof.
-  intros c d r Hpl Hne H. destruct (is_dict d) eqn:Hd.
+  intros c d r Hpl H. destruct (is_dict d) eqn:Hd.
   2:{ rewrite from_dict_nonmapping in H by assumption. discriminate. }
   destruct d; try discriminate. exists kvs. split; [reflexivity|].
   rewrite from_dict_dict in H by assumption.
@@ -293,7 +300,6 @@ Qed.
 
 (* with user hooks: the only further exceptions are the ones user code raised itself *)
 Theorem outcomes_hooks : forall c d0,
-  cs_fields c <> [] ->
   let c0 := {| cs_name := cs_name c; cs_fields := cs_fields c; cs_forbid_extra := cs_forbid_extra c;
                cs_discr_keys := cs_discr_keys c; cs_pre := None; cs_post := None |} in
   match cs_pre c with
@@ -310,7 +316,7 @@ Theorem outcomes_hooks : forall c d0,
             end
   end.
 Proof.
-  intros c d0 Hne c0. unfold from_dict. cbn [cs_pre cs_post c0].
+  intros c d0 c0. unfold from_dict. cbn [cs_pre cs_post c0].
   assert (Hb: forall d, body c0 d = body c d) by (intro d; reflexivity).
   destruct (cs_pre c) as [h|].
   - destruct (h d0) as [d|e]; [|reflexivity].
@@ -318,12 +324,10 @@ Proof.
   - rewrite Hb. destruct (body c d0); reflexivity.
 Qed.
 
-(* fieldless class: nothing is checked (known finding fieldless-accepts-nonmapping) *)
-Theorem fieldless_accepts_anything : forall c d, plain c -> cs_fields c = [] ->
-  from_dict c d = Ok (VObj (cs_name c) []).
-Proof.
-  intros c d [Hpre Hpost] Hf. unfold from_dict, body. rewrite Hpre, Hpost, Hf. reflexivity.
-Qed.
+(* field-less class (after fix abe4c99): same frame as every other class *)
+Theorem fieldless_nonmapping : forall c d, plain c -> cs_fields c = [] -> is_dict d = false ->
+  from_dict c d = Exn XValueError.
+Proof. intros c d Hp _ Hd. apply from_dict_nonmapping; assumption. Qed.
 
 (* ------------------------------------------------------------------ *)
 (* unions *)
